@@ -2,6 +2,8 @@
 evidence must contain.  (The deciding logic lives in the C monitors.)"""
 
 KIT = ["vf_kit.c"]
+HOOK_COMMITS = []
+NOT_APPLICABLE = {}
 
 
 def simple(mon, config="asan", **kw):
@@ -15,6 +17,11 @@ PROPS = {
         "sources": KIT + ["mon_C20.c"],
         "phases": simple("mon_C20.c"),
         "level": "exploration",
+        "level_text": "Held on every (value, buffer size) and byte-string case executed: structured enumeration of bit positions, digit counts and "
+                      "sizes 0..32 plus millions of random/hostile values, under ASan+UBSan with exact-size buffers. Not all 2^64 values; sprintf/sscanf "
+                      "have no value-dependent branches beyond digit count, which is enumerated completely.",
+        "level_note": "Trusts glibc sscanf/sprintf and ASan red zones; input shapes the statement is silent on are observed only.",
+        "technique": "runtime monitoring: differential execution against an independent hex formatter under ASan/UBSan with guarded exact-size buffers",
         "evaluations": ["tostr.calls", "parse.calls"],
         "rule": "h3ToString cases are (value, buffer size) pairs: every single-bit value, 0 and ~0 at every size 0..32; every hex digit count "
                 "1..16 with random tails at sizes {0,1,15,16,17,18,31,32,random}; all values 0..0xFFFF; cells/edges/vertexes produced by the "
